@@ -279,4 +279,146 @@ func runC15(c *Ctx) {
 		c.Stat(fmt.Sprintf("ops_%d", len(hist)))
 		c.Stat("be_" + be)
 	}
+	rounds := 8
+	if c.Thorough() {
+		rounds = 80
+	}
+	for r := 0; r < rounds; r++ {
+		c15Soak(c, r, backends[r%4], dir)
+	}
+}
+
+// c15Soak (kind soak): 8 goroutines over one Client, each owning one 512-byte region of a file (every operation is one
+// packet and lies within the extent): writer g rewrites its region 150 times with the pattern (g, i), reader goroutines read
+// whole regions. Regions are disjoint, so linearizability per region says: every read returns one of the patterns written to
+// that region (or the initial one), whole; a reader never sees an older pattern after a newer one; at the end every region
+// holds the last pattern written. Many requests are in flight at once all the time (with the allocator on: pages are lent
+// and returned continuously). Oracle only.
+func c15Soak(c *Ctx, r int, be, dir string) {
+	const G, region, iters = 8, 512, 150
+	pat := func(g, i int) []byte {
+		b := make([]byte, region)
+		for x := range b {
+			b[x] = byte(g*31 + i*7 + x*3 + 1)
+		}
+		b[0], b[1], b[2] = byte(g), byte(i), byte(i>>8)
+		return b
+	}
+	initial := make([]byte, G*region)
+	for g := 0; g < G; g++ {
+		copy(initial[g*region:], pat(g, 0))
+	}
+	var pr *pair
+	var err error
+	name := "/f"
+	var mf *memFile
+	switch be {
+	case "os", "osalloc":
+		name = filepath.Join(dir, fmt.Sprintf("soak%d", r))
+		os.WriteFile(name, initial, 0o644)
+		pr, err = newPair(pairOpt{alloc: be == "osalloc"})
+	default:
+		fs := newMemFS()
+		mf = fs.get("/f", true)
+		mf.data = append([]byte(nil), initial...)
+		pr, err = newPair(pairOpt{reqServer: true, handlers: fs.handlers(), alloc: be == "reqalloc"})
+	}
+	if err != nil {
+		c.Diag("soak pair: %v", err)
+		return
+	}
+	nn := c.Case("soak", kvi("round", r), kvs("be", be), kvi("g", G), kvi("iters", iters))
+	c.NT(nn)
+	c.Stat("soak_" + be)
+	f, err := pr.Client.OpenFile(name, os.O_RDWR)
+	if err != nil {
+		c.Oracle(nn, false, "open: "+err.Error())
+		pr.Close()
+		return
+	}
+	var mu sync.Mutex
+	bad := ""
+	fail := func(s string) {
+		mu.Lock()
+		if bad == "" {
+			bad = s
+		}
+		mu.Unlock()
+	}
+	var wg sync.WaitGroup
+	var done int32
+	for g := 0; g < G; g++ {
+		wg.Add(2)
+		go func(g int) { // the writer of region g
+			defer wg.Done()
+			for i := 1; i <= iters; i++ {
+				if n, err := f.WriteAt(pat(g, i), int64(g*region)); err != nil || n != region {
+					fail(fmt.Sprintf("WriteAt failed: n=%d err=%v", n, err))
+					return
+				}
+			}
+			atomic.AddInt32(&done, 1)
+		}(g)
+		go func(g int) { // a reader of region g
+			defer wg.Done()
+			last := 0
+			b := make([]byte, region)
+			for atomic.LoadInt32(&done) < G {
+				n, err := f.ReadAt(b, int64(g*region))
+				if err != nil || n != region {
+					fail(fmt.Sprintf("ReadAt failed: n=%d err=%v", n, err))
+					return
+				}
+				i := int(b[1]) | int(b[2])<<8
+				if int(b[0]) != g || i > iters || !bytes.Equal(b, pat(g, i)) {
+					if (be == "os" || be == "osalloc") && int(b[0]) == g {
+						// the kernel may tear a 512-byte pwrite under a concurrent pread (the property's proviso): every byte must
+						// still come from a pattern written to this region
+						torn := true
+						for x := 3; x < region && torn; x++ {
+							okb := false
+							for j := last; j <= iters && !okb; j++ {
+								okb = b[x] == pat(g, j)[x]
+							}
+							torn = okb
+						}
+						if torn {
+							c.Stat("soak_reads_torn_by_the_kernel")
+							continue
+						}
+					}
+					fail(fmt.Sprintf("a read of region %d returned bytes that no write to that region produced (header %d/%d)", g, b[0], i))
+					return
+				}
+				if i < last {
+					fail(fmt.Sprintf("a read of region %d returned write %d after an earlier read had returned write %d", g, i, last))
+					return
+				}
+				last = i
+			}
+		}(g)
+	}
+	if !cctWait(&wg, 60*time.Second) {
+		c.Oracle(nn, false, "an operation on the shared Client did not return within 60 s")
+		pr.cliConn.Close()
+		pr.srvConn.Close()
+		return
+	}
+	f.Close()
+	pr.Close()
+	var final []byte
+	if mf != nil {
+		final = mf.bytes()
+	} else {
+		final, _ = os.ReadFile(name)
+	}
+	if bad == "" {
+		for g := 0; g < G; g++ {
+			if len(final) < (g+1)*region || !bytes.Equal(final[g*region:(g+1)*region], pat(g, iters)) {
+				bad = fmt.Sprintf("after all writes were acknowledged region %d does not hold the last pattern written to it", g)
+				break
+			}
+		}
+	}
+	c.Oracle(nn, bad == "", bad)
 }
